@@ -31,7 +31,7 @@ func c03Alphabet() []hx.Req {
 		{Op: "READ_FILE", N: 100, Off: 10}, {Op: "READ_FILE", N: 4000, Off: 4000},
 		{Op: "READ_CRIT", N: 100, Off: 10}, {Op: "READ_CRIT", N: 10, Off: 4995},
 		{Op: "READ_CD", Start: 0, Count: 1}, {Op: "READ_CD", Start: 1, Count: 2},
-		P("CREATE", "/new.bin"), P("CREATE", "/f1"), P("CREATE", "/nodir/x"),
+		P("CREATE", "/new.bin"), P("CREATE", "/f1"), P("CREATE", "/nodir/x"), P("CREATE", "/f1/x"),
 		{Op: "WRITE", N: 0, Seed: 5}, {Op: "WRITE", N: 37, Seed: 6},
 		P("DELETE", "/d1/b"), P("MKDIR", "/made"), P("RMDIR", "/empty"),
 		P("DIR_SIZE", "/d1"),
@@ -114,7 +114,7 @@ func TestC03Enum(t *testing.T) {
 	if hx.Thorough() {
 		maxLen = 3
 	}
-	st.MarkExhaustive(fmt.Sprintf("all request sequences of length 1..%d over a %d-request alphabet x writing on/off (sync transport)", maxLen, len(alpha)))
+	st.MarkExhaustive(fmt.Sprintf("all request sequences of length 1..%d over a %d-request alphabet x writing on/off (sync transport); in the quick tier also all length-3 sequences inside each state component's sub-alphabet (directory / read file / write file)", maxLen, len(alpha)))
 	cases := func(yield func(hx.SessionCase) bool) {
 		var rec func(prefix []hx.Req, depth int) bool
 		rec = func(prefix []hx.Req, depth int) bool {
@@ -136,7 +136,42 @@ func TestC03Enum(t *testing.T) {
 			}
 			return true
 		}
-		rec(nil, 0)
+		if !rec(nil, 0) || hx.Thorough() {
+			return
+		}
+		// quick tier: one request deeper inside each state component (directory, read file, write file), whose
+		// requests are the ones that interact through the connection's state
+		comp := map[string][]hx.Req{}
+		for _, a := range alpha {
+			switch a.Op {
+			case "OPEN_DIR", "READ_DIR", "READ_ENTRY", "READ_ENTRY2":
+				comp["dir"] = append(comp["dir"], a)
+			case "OPEN_FILE", "READ_FILE", "READ_CRIT", "READ_CD":
+				comp["ro"] = append(comp["ro"], a)
+				if a.Path == "/CLOSEFILE" {
+					comp["wo"] = append(comp["wo"], a)
+				}
+			case "CREATE", "WRITE", "DELETE":
+				comp["wo"] = append(comp["wo"], a)
+			}
+		}
+		for _, k := range []string{"dir", "ro", "wo"} {
+			sub := comp[k]
+			for _, a := range sub {
+				for _, b := range sub {
+					for _, c3 := range sub {
+						for _, aw := range []bool{false, true} {
+							if !aw && k != "wo" {
+								continue
+							}
+							if !yield(hx.SessionCase{Tree: c03FixtureTree(), AllowWrite: aw, Reqs: []hx.Req{a, b, c3}, Transport: "sync"}) {
+								return
+							}
+						}
+					}
+				}
+			}
+		}
 	}
 	hx.RunCases(t, st, cases, runC03, hx.PropOpts{WriteAhead: true})
 }
